@@ -1,10 +1,99 @@
 import VOPyVerif.Drv.Proto
-/-! Driver front end for property C03 (line protocol → executable model). -/
+import VOPyVerif.Drv.C02
+import VOPyVerif.Model.Steps
+/-! Driver front end for property C03 (P-entry exactly when nothing can still ε-cover; U; Auer's
+hold-back).  Argument formats as in `Drv/C02.lean` (its parsers are reused).  Pairs / triples of
+sets are answered as `S';P'` / `S';P';U'`, each sorted ascending.
+
+* `pareto <S> <P> <U> <n> <cov>`            → `S';P'` of the PaVeBa-family `pareto_updating()`
+* `useful <S> <P> <n> <cov>`                → `U'` of `useful_updating()`; `cov[s][p]` = R_s covered by R_p
+* `round <S> <P> <U> <n> <dom> <cov>`       → `S';P';U'` after discarding, pareto_updating, useful_updating
+* `cover <S> <P> <n> <cov>`                 → `S';P'` of VOGP / ε-PAL `epsiloncovering()`
+* `coverad <S> <P> <n> <cov> <depths> <maxDepth> <enabled>` → `S';P';e'` of VOGP_AD's gated version
+  (`depths`: comma-separated depth per design index `0..n-1`; `enabled`, `e'`: `0/1`)
+* `vround <S> <P> <n> <dom> <cov> <pess>`   → `S';P'` after discarding + epsiloncovering
+* `auer <eps> <S> <P> <centres> <widths>`   → `S';P'` of Auer `pareto_updating()`, widths by design
+* `auerpos <eps> <S> <P> <centres> <rows>`  → literal mirror: `rows[k]` read for the k-th element of `S`
+  (`S` in iteration order; `|rows| ≥ |S|`)
+* `around <eps> <S> <P> <centres> <widths>` → `S';P'` after Auer's discarding + pareto_updating, by design
+* `aroundpos <eps> <S> <P> <centres> <rows>`→ the same as the code runs it: `rows` aligned with `S`
+  before discarding (`|rows| = |S|`) and re-read by position after `S` shrank
+-/
 namespace VOPy.Drv.C03
-open VOPy VOPy.Proto
+open VOPy VOPy.Proto VOPy.Steps VOPy.Drv.C02
 
 def handle (args : List String) : String :=
   match args with
+  | ["pareto", s, p, u, n, c] =>
+    match parseTable n c with
+    | some (n, cov) =>
+      match parseSet n s, parseSet n p, parseSet n u with
+      | some S, some P, some U => let r := pavebaPareto cov S P U; fmtPair r.1 r.2
+      | _, _, _ => bad
+    | none => bad
+  | ["useful", s, p, n, c] =>
+    match parseTable n c with
+    | some (n, cov) =>
+      match parseSet n s, parseSet n p with
+      | some S, some P => fmtNats (sortNat (pavebaUseful cov S P))
+      | _, _ => bad
+    | none => bad
+  | ["round", s, p, u, n, d, c] =>
+    match parseTable n d, parseTable n c with
+    | some (n, dom), some (n', cov) =>
+      if n ≠ n' then bad else
+      match parseSet n s, parseSet n p, parseSet n u with
+      | some S, some P, some U =>
+        let r := pavebaRound dom cov S P U
+        fmtPair r.1 r.2.1 ++ ";" ++ fmtNats (sortNat r.2.2)
+      | _, _, _ => bad
+    | _, _ => bad
+  | ["cover", s, p, n, c] =>
+    match parseTable n c with
+    | some (n, cov) =>
+      match parseSet n s, parseSet n p with
+      | some S, some P => let r := epsilonCovering cov S P; fmtPair r.1 r.2
+      | _, _ => bad
+    | none => bad
+  | ["coverad", s, p, n, c, dp, md, en] =>
+    match parseTable n c, parseNats dp, md.toNat?, parseBool en with
+    | some (n, cov), some D, some maxD, some e =>
+      if D.length ≠ n then bad else
+      match parseSet n s, parseSet n p with
+      | some S, some P =>
+        let r := epsilonCoveringAD cov (fun i => D.getD i 0) maxD e S P
+        fmtPair r.1 r.2.1 ++ ";" ++ fmtBool r.2.2
+      | _, _ => bad
+    | _, _, _, _ => bad
+  | ["vround", s, p, n, d, c, t] =>
+    match parseTable n d, parseTable n c, parseTable n t with
+    | some (n, dom), some (n', cov), some (n'', pd) =>
+      if n ≠ n' || n ≠ n'' then bad else
+      match parseSet n s, parseSet n p with
+      | some S, some P => let r := vogpRound dom cov pd S P; fmtPair r.1 r.2
+      | _, _ => bad
+    | _, _, _ => bad
+  | [op, e, s, p, c, w] =>
+    match parseRat e, parseRows c, parseRows w with
+    | some eps, some C, some Wd =>
+      if !sameDim C Wd then bad else
+      match parseSet C.length s, parseSet C.length p with
+      | some S, some P =>
+        if op = "auer" then
+          if C.length ≠ Wd.length then bad else
+          let r := auerPareto eps (rowFn C) (rowFn Wd) S P; fmtPair r.1 r.2
+        else if op = "around" then
+          if C.length ≠ Wd.length then bad else
+          let r := auerRound eps (rowFn C) (rowFn Wd) S P; fmtPair r.1 r.2
+        else if op = "auerpos" then
+          if Wd.length < S.length then bad else
+          let r := auerParetoPos eps (rowFn C) Wd S P; fmtPair r.1 r.2
+        else if op = "aroundpos" then
+          if Wd.length ≠ S.length then bad else
+          let r := auerRoundPos eps (rowFn C) Wd S P; fmtPair r.1 r.2
+        else bad
+      | _, _ => bad
+    | _, _, _ => bad
   | _ => bad
 
 end VOPy.Drv.C03
